@@ -16,6 +16,8 @@ def full_dump(m):
     def where(n):
         if isinstance(n, gtirb.ProxyBlock):
             return "proxy"
+        if n.address is None:
+            return f"{type(n).__name__[0]}@outside-the-module+{n.size}"        # a block that is in no interval of the module
         return f"{type(n).__name__[0]}@{n.address:#x}+{n.size}"
     out = {}
     out["sections"] = [(s.name, [(bi.address, bytes(bi.contents).hex(), sorted((o, type(e).__name__, [x.name for x in e.symbols], getattr(e, 'offset', 0)) for o, e in bi.symbolic_expressions.items()))
